@@ -19,9 +19,26 @@ Definition c24_qkind_exclusions : list string :=
   ["query.caseQ"; "query.caseScopeQ"; "query.gobRegexp"; "query.orOperator"; "query.token"
   ]%string.
 
+(** XFromProto(nil) of a getter-only function = XFromProto of the message with every field unset
+    (protobuf-go getters return the zero value on a nil receiver).  The table is computed from the
+    generated tables by iterating "convert the all-unset message" [nil_depth] times, each round
+    using the previous round for nested unset sub-messages; [r0] is the regexp oracle's answer for
+    the empty pattern, the only pattern an unset message contains.  That the result is a fixpoint
+    (the entry for n IS the model's conversion of n's all-unset message) is theorem
+    C24_unset_message_is_empty_message. *)
+Definition nil_depth : nat := 6.
+Fixpoint gen_nilfrom (k : nat) (r0 : option (list N)) : list (string * outcome val) :=
+  match k with
+  | O => []
+  | S k' =>
+      let E := Env pf_tables pf_qto pf_qfrom pf_qto_default_panics pf_qfrom_nil_safe pf_qfrom_default_panics
+                   c24_exclusions (fun _ => r0) (gen_nilfrom k' r0) in
+      map (fun nt => (fst nt, apply E (CRec false false (fst nt)) (zero_rec (t_to (snd nt))))) pf_tables
+  end.
+
 Definition gen_env (re_norm : list N -> option (list N)) : env :=
   Env pf_tables pf_qto pf_qfrom pf_qto_default_panics pf_qfrom_nil_safe pf_qfrom_default_panics
-      c24_exclusions re_norm.
+      c24_exclusions re_norm (gen_nilfrom nil_depth (re_norm [])).
 
 (** every Q kind of package query is handled by QToProto or is a named exclusion *)
 Definition qkinds_covered : bool :=
@@ -36,6 +53,7 @@ Definition c24_case_ok (c : wcase) : bool :=
   match c with
   | WConv cv inp obs retab => out_eqb (apply (gen_env (re_norm_of retab)) cv inp) obs
   | WDom ct cf v retab => dom_b (gen_env (re_norm_of retab)) ct cf v
+  | WNilFrom n obs retab => out_eqb (nil_from (gen_env (re_norm_of retab)) n) obs
   | WHandler h req cls retab =>
       (out_class (handle (gen_env (re_norm_of retab)) ok_streamer ok_streamer
                          handler_defaults_nil_opts h req) =? cls)%N
